@@ -9,11 +9,26 @@ spec:      spec/ListView.tla      reference: token layouts, Split (reference rea
                                   NoContinuation, DropNlBeforeCmt (MC_ListViewImpl_neg_*.cfg) each make TLC
                                   report a violation
            spec/TraceListView.tla validation of recorded executions against the reference
+           spec/ListViewMulti.tla (+ TraceListViewMulti.tla, harness/multi_c11.py) several views alive at once:
+                                  two handles on one field / two fields / two parses of the same text / both
+                                  interpretations of one field, nested with-blocks, the same object entered again,
+                                  ValueReferences held across other edits; Isolation, DocLocal checked by TLC for
+                                  all interleavings of two handles, negative control SharedTokenCache
 binding:   (a) CASE lines printed by TLC (layout, edit sequence, expected list after each call, expected
                outcome of leaving the with-block, predicted text) replayed on real documents through
                paragraph.as_interpreted_dict_view(LIST_*_INTERPRETATION)
            (b) random long layouts (<= 8 values) and edit sequences (several with-blocks, value
                references, streaming reference passes) executed on the real code; TLC validates the events
+
+           (c) behaviours of ListViewMulti drawn by TLC's simulator replayed on two parses of one document, and
+               random interleavings of three view objects recorded and validated by TLC (TraceListViewMulti)
+size:      notes/SIZE_STRESS.md -- the abstract cases stay, the concretization has a size dimension in both legs:
+           every 8th replayed case gets words / blank runs / comment lines of boundary lengths (1 .. 8193,
+           65535+ in the thorough tier); recorded traces include lists of 1,2,3,9,10,11,..,100,101,255..257 and
+           1000 values (one line, one per continuation line, leading separators, identical items), 99..257
+           comment lines between two values and INSIDE one comma value, and 100 appends followed by 100 removes
+           in one with-block.  TLC treats words as numbers, so Split/the list semantics are length-independent
+           by construction; counts are real (TLC splits the 1000-value layouts itself).
 
 Verdict observables (DESIGN.md 5/C11): values on open = Split(layout) (TLC); the list the view shows after
 every call = reference list; leaving without change => dump() byte-identical; after edits a fresh parse of
@@ -37,7 +52,7 @@ import multi_c11 as multi
 MANIFEST = dict(
     technique="TLA+ spec (ListView reference: layout automaton, Split reader, list semantics; ListViewImpl: token-list layer transcribed from Deb822ParsedTokenList) model-checked by TLC over all bounded layouts x edit sequences; TLC-emitted cases replayed into as_interpreted_dict_view; recorded executions validated by TLC (TraceListView)",
     text="A field value is modelled as a sequence of layout tokens (word, comma, blanks, newline, continuation blank, comment line). TLC enumerates every well-formed layout within the bounds for the whitespace- and the comma-separated interpretation (trailing and leading separators, comment lines anywhere, values continuing over lines with comment lines inside, tab continuation) and every sequence of append/remove/replace/value-reference/append_separator/append_newline/append_comment/reformat calls, and checks that the transcribed token-list algorithm reads exactly the reference split, writes back an untouched list identically, and after edits writes a syntactically valid field that re-reads as the edited list. The binding is two-way: cases printed by TLC (with the expected list after every call and the expected outcome of leaving the with-block) are replayed on real documents with concretized words, blanks and comments, and random executions on much longer layouts with several with-blocks are recorded and validated by TLC against the reference list semantics.",
-    note="Small scope: layouts up to 3 words/7 tokens x 2 calls (quick), 4 words/9 tokens x 2 calls (thorough) (tokens are finer than in DESIGN.md: newline and continuation blank are separate and the final newline counts); concretization of words/blanks/comments is sampled. Removing the only value is modelled as the code does (ValueError on leaving, document untouched). Trusted: TLC, the concretizer, the projections list(view), dump(), byte comparison of the text around the field.",
+    note="Several views at once (ListViewMulti: isolation between handles, fields, documents with the same text, held ValueReferences; two writers on one field / the other interpretation after a write / empty lists are unspecified) and a size dimension of the concretization (boundary lengths, lists up to 1000 values, 100+ comment/continuation lines, 200 consecutive edits) were added in the hardening rounds. Small scope: layouts up to 3 words/7 tokens x 2 calls (quick), 4 words/9 tokens x 2 calls (thorough) (tokens are finer than in DESIGN.md: newline and continuation blank are separate and the final newline counts); concretization of words/blanks/comments is sampled. Removing the only value is modelled as the code does (ValueError on leaving, document untouched). Trusted: TLC, the concretizer, the projections list(view), dump(), byte comparison of the text around the field.",
     design="5 (C11)")
 
 SP, NL, CT, CTS, CM, SEP = -1, -2, -3, -4, -5, -6
@@ -771,6 +786,8 @@ def run(ctx):
         "new values are single items of the interpretation (no blanks in a space list, no comma, no leading '#', no newline); append_separator on a space list and sort are not exercised",
         "removing the only value: modelled as the code does (ValueError on leaving the with-block, document untouched)",
         "remove/replace of an absent value and append_newline after a newline: only 'the list does not change' is a verdict, the exception is a diagnostic",
+        "several views at once: what a view shows depends only on the calls made on it; two writers on one field, what the other interpretation reads after a write, and empty lists are unspecified (document-level checks only); a ValueReference whose value was removed must fail (not generated in replay); a partially consumed iter_value_references() is closed before the list is edited",
+        "size: words/blank runs/comment lines of boundary lengths up to 8193 (65535+ thorough), lists up to 1000 values, 99-257 comment lines between/inside values, 100 appends + 100 removes in one with-block; empty fields ('F:\\n') are not generated (the views assert content)",
         "trusted: TLC, the concretizer (words/blanks/comments per token), projections list(view), dump(), byte comparison around the field",
     ]
     # 1. design level (independent of /repo): all layouts x edit sequences; runs beside the replay
